@@ -145,6 +145,7 @@ func TestC08(t *testing.T) {
 	Col.Property = "C08"
 	ReplayRegress(t, "C08")
 	RunProps(t, rpC08(MyTypes()))
+	t.Run("volume", func(t *testing.T) { runVolume(t, "C08") })
 }
 
 func init() { RapidProps["C08"] = func() []RProp { return rpC08(TypeNames) } }
